@@ -279,6 +279,11 @@ func (h *ProposalHandler) CheckInitialSignaturesFromLastCommit(ctx sdk.Context, 
 			h.logger.Error("CheckInitialSignaturesFromLastCommit: failed to unmarshal vote extension", "error", err)
 			// check for initial sig
 		} else if len(voteExt.InitialSignature.SignatureA) > 0 {
+			// a signature shorter than r||s cannot be recovered from; skip it like any other invalid signature
+			if len(voteExt.InitialSignature.SignatureA) < 64 || len(voteExt.InitialSignature.SignatureB) < 64 {
+				h.logger.Error("CheckInitialSignaturesFromLastCommit: initial signature too short")
+				continue
+			}
 			// verify initial sig
 			evmAddress, err := h.bridgeKeeper.EVMAddressFromSignatures(ctx, voteExt.InitialSignature.SignatureA, voteExt.InitialSignature.SignatureB)
 			if err != nil {
